@@ -463,6 +463,10 @@ func (ev *astEnv) eval(x ast.Expr) Value {
 		if iv, ok := v.(*IfaceV); ok && iv.Typ != nil {
 			panic(notApplicable{"dynamic type is " + iv.Typ.String()})
 		}
+		if iv, ok := v.(*IfaceV); ok && iv.ID != nil && isScalar(ev.typeOf(n)) {
+			_, val := e.unboxScalar(iv, ev.typeOf(n))
+			return val
+		}
 		panic(unsupported("type assertion in contract on a value of unknown dynamic type"))
 	case *ast.CompositeLit:
 		t := ev.typeOf(n)
@@ -931,7 +935,10 @@ func (e *Exec) evalPureCall(s *State, fn *ssa.Function, args []Value, free []Val
 		}
 	}
 	if len(results) == 0 {
-		panic(unsupported("pure function never returns: " + fn.String()))
+		// the spec function has no value for these arguments (every path panics, e.g. an index into the nil result of
+		// an error path, guarded by an implication whose antecedent is false there): an arbitrary value
+		e.note("spec function without a value for some arguments (arbitrary there): " + fn.String())
+		return e.freshValS(s, fn.Signature.Results().At(0).Type(), "novalue")
 	}
 	return e.mergeResults(results)
 }
